@@ -8,7 +8,20 @@ NOTE_COMMON = ("Trusted: Coq 8.16.1 kernel + vm_compute; hand-written Gallina mo
                "model-vs-code agreement is a sampled differential correspondence (plus exhaustive tables where stated), i.e. tested, not proved; "
                "no axioms (Print Assumptions re-read every run).")
 
+CONN_NOTE = (NOTE_COMMON + " Connection model: packets are seen through a view (the fields core.rs reads); the parser's verdict on each received "
+             "frame is an oracle input of the model (supplied by the harness from the real parser). The model agrees with GenericConnection on the FULL "
+             "state digest, events and return values on every sampled history (C05's projection); each property compares its own projection.")
+
 CHECKS = {
+ "C19": dict(
+  text="Coq theorems, Closed under the global context, for EVERY state (reachable or not), configuration and API call of the connection model "
+       "and hence every event list of every history of any length: no send request follows a close request; every DISCONNECT and every failing "
+       "CONNACK requested for sending is followed by a close request in the same list; a keep-alive timeout on an established connection always "
+       "requests close. The executable predicate close_ordered of the theorem is also the monitor evaluated on every event list the "
+       "implementation returns. Tie: projection (send/close events) of the connection correspondence.",
+  ref="DESIGN.md §3 C19",
+  note=CONN_NOTE,
+  technique="Coq per-step proof over all states (compositional: benign/closing event lists) + monitor + differential correspondence"),
  "C09": dict(
   text="Coq theorems (Closed under the global context) about the model of PacketBuilder::feed, for every byte stream and EVERY partition "
        "into receive buffers, of any length: drain_chunks = drain of the concatenation (same results, same order, same final state); those "
